@@ -454,6 +454,32 @@ int main(void)
       printf("> cr.clear\n< ok clear\n");
       if (e) printf("E clear %s\n", e);
     }
+    else if (!strcmp(t[0], "polyprobe") && nt >= 3) {
+      /* polyprobe p N: (fresh constant-rate resampler, 1 channel, float64 in and out, a plan that is ONE non-interpolated poly-phase
+       * stage) an impulse at input frame p of an N-frame stream of zeros; prints the plan integers, every output frame and the whole
+       * coefficient table as bit patterns.  checks/polyread.py predicts each output frame as ONE table cell - row = clock phase,
+       * column = tap index - from the absolute clock (Properties/C04.absolute_clock) and the index macro (Properties/C04Coef). */
+      rate_t * p = R0(); size_t pp = (size_t)strtoull(t[1], 0, 10), N = (size_t)strtoull(t[2], 0, 10), idone = 0, odone = 0, k;
+      char const * kernel; char const * kind = p && p->num_stages == 1? kind_of(&p->stages[0], &kernel) : "none";
+      if (!p || p->num_stages != 1 || strcmp(kind, "poly0") || ch != 1 || itype != SOXR_FLOAT64_I || otype != SOXR_FLOAT64_I || pp >= N)
+        printf("Q skip stages=%d kind=%s\n", p? p->num_stages : -1, kind);
+      else {
+        stage_t * s = &p->stages[0]; int dbl = strstr(soxr_engine(S), "64") != 0;   /* a poly-phase stage does not record its core_flags */
+        size_t olen = (size_t)((double)N / p->io_ratio) + 64, cells = (size_t)s->n * (size_t)s->L;
+        double * in = calloc(N, sizeof *in), * out = calloc(olen, sizeof *out); soxr_error_t e;
+        union {double d; uint64_t u;} b;
+        printf("Q plan L=%d step=%d at0=%d preload=%d n=%d pre=%d dbl=%d N=%zu p=%zu\n", s->L, s->step.integer, s->at.integer, s->preload, s->n, s->pre, dbl != 0, N, pp);
+        printf("Q table");
+        for (k = 0; k < cells; ++k) { b.d = dbl? ((double const *)s->shared->poly_fir_coefs)[k] : (double)((float const *)s->shared->poly_fir_coefs)[k]; printf(" %" PRIx64, b.u); }
+        printf("\n");
+        in[pp] = 1;
+        e = soxr_process(S, in, N, &idone, out, olen, &odone);
+        printf("Q out err=%s idone=%zu", e? e : "-", idone);
+        for (k = 0; k < odone; ++k) { b.d = out[k]; printf(" %" PRIx64, b.u); }
+        printf("\n");
+        free(in); free(out);
+      }
+    }
     else if (!strcmp(t[0], "hash")) {
       unsigned c; printf("H out=%" PRIu64 " pos=%" PRIu64 " clips=%zu err=%s", total_out, pos, *soxr_num_clips(S), S->error? S->error : "-");
       for (c = 0; c < ch && c < 64; ++c) printf(" %016" PRIx64, hash[c]);
